@@ -45,6 +45,48 @@ pub fn run(args: &[String]) {
             }
         }
     }
+    // Tall trees (the model explores heights <= 4): a single authentication path is an instance of the same rule at any height -
+    // children at depth d are hashed with the friendly hash iff n_friendly >= d, the index bits say on which side the sibling is.
+    for h in [5u64, 31, 32, 33, 63, 64, 65, 100, 128, 191] {
+        for nvf in [0u64, 10, 64, 300] {
+            for which in 0..4u64 {
+                // index bits, least significant first (bit k: is the node at depth h - k a right child?)
+                let bits: Vec<bool> = (0..h).map(|k| match which { 0 => false, 1 => true, 2 => k == 1, _ => rng.below(2) == 1 }).collect();
+                let leaf = rng.felt();
+                let sibs: Vec<Felt> = (0..h).map(|_| rng.felt()).collect();
+                let index = bits.iter().enumerate().fold(Felt::ZERO, |a, (k, b)| if *b { a + Felt::TWO.pow(k as u64) } else { a });
+                let fold = |sibs: &[Felt]| -> Felt {
+                    let mut cur = leaf;
+                    for (k, s) in sibs.iter().enumerate() {
+                        let d = h - k as u64;               // depth of the two children being hashed
+                        cur = if bits[k] { crate::merkle::node_hash(s, &cur, nvf >= d) } else { crate::merkle::node_hash(&cur, s, nvf >= d) };
+                    }
+                    cur
+                };
+                let root = fold(&sibs);
+                let cfg = Config { height: Felt::from(h), n_verifier_friendly_commitment_layers: Felt::from(nvf) };
+                let mut run = |name: &str, root: Felt, index: Felt, leaf: Felt, auth: Vec<Felt>, expect_ok: bool| {
+                    cases += 1;
+                    let _ = verif::take();
+                    let r = guarded(|| vector_commitment_decommit(Commitment { config: cfg.clone(), commitment_hash: root }, &[Query { index, value: leaf }], Witness { authentications: auth }));
+                    let _ = verif::take();
+                    let (got_ok, detail) = match &r { Ok(Ok(())) => (true, "ok".to_string()), Ok(Err(e)) => (false, format!("{e:?}")), Err(p) => (false, format!("panic {p}")) };
+                    if got_ok != expect_ok {
+                        bad += 1;
+                        out.line(&json!({"i": 0, "inst": 0, "ok": false, "why": format!("tall tree: the path rule expects {} but real decommit returned {}", if expect_ok { "ok" } else { "a rejection" }, detail),
+                                         "case": {"height": h, "nvf": nvf, "idx": [format!("{:#x}", index)], "corrupt": [format!("tall:{name}"), h, nvf]}}));
+                    }
+                };
+                run("honest", root, index, leaf, sibs.clone(), true);
+                let mut a = sibs.clone(); let k = (rng.below(h)) as usize; a[k] += Felt::ONE;
+                run("sibling+1", root, index, leaf, a, false);
+                run("leaf+1", root, index, leaf + Felt::ONE, sibs.clone(), false);
+                run("index^1", root, if bits[0] { index - Felt::ONE } else { index + Felt::ONE }, leaf, sibs.clone(), false);
+                if h >= 2 { run("only-first-sibling", fold(&sibs[..1]), index, leaf, sibs[..1].to_vec(), false); }
+                run("index+2^h", root, index + Felt::TWO.pow(h), leaf, sibs.clone(), false);
+            }
+        }
+    }
     out.line(&json!({"summary": true, "cases": cases, "bad": bad}));
 }
 
